@@ -2,7 +2,7 @@
 (* What the `any` program prints for the results the library computed (C19, src/bin/any.rs).
 
    A result is [k |-> "val", num, den (decimal strings), decimal (the library's own 12/12 rendering),
-   u (the unit as <<[key, power, prefix]>>)] or [k |-> "err", msg].
+   u (the unit as <<[key, power, prefix]>>)] or [k |-> "err", msg, msg1 (msg up to its first line break)].
      Line(r, exact)   the one line printed for a value
      Matches(..)      standard output consists, in order, of one Line per value and one diagnostic
                       block per error (first line "error: <msg>", ended by an empty line); then, if
@@ -30,7 +30,8 @@ MatchResults(lines, i, results, j, exact) ==
   IF j > Len(results) THEN i
   ELSE IF i > Len(lines) THEN 0
   ELSE IF results[j].k = "val" THEN (IF lines[i] = Line(results[j], exact) THEN MatchResults(lines, i + 1, results, j + 1, exact) ELSE 0)
-  ELSE IF lines[i] = "error: " \o results[j].msg THEN MatchResults(lines, SkipBlock(lines, i + 1), results, j + 1, exact) ELSE 0
+  \* (a message that echoes a line break of the query continues on the next line: its first line is compared, msg1)
+  ELSE IF lines[i] = "error: " \o results[j].msg1 THEN MatchResults(lines, SkipBlock(lines, i + 1), results, j + 1, exact) ELSE 0
 RECURSIVE MatchDescs(_, _, _, _)
 MatchDescs(lines, i, descs, j) == IF j > Len(descs) THEN i
                                   ELSE IF i > Len(lines) \/ lines[i] # DescLine(descs[j]) THEN 0
